@@ -107,3 +107,9 @@ reg("C18", "model_checking",
     "must-reject vectors must exit 1 naming file and line, don't-care vectors must do one of the two; crashes, aborts, hangs and silently different values are violations.",
     "Don't-care classes (leading blanks, leading +, -0 in unsigned, hex/binary prefixes in number columns, '5.', '.5', subnormals) are stated in spec/NumParse.tla. Float rounding is checked with exact rational arithmetic in the glue (TLC has no floats). Trusted: TLC, glue rendering.",
     "DESIGN.md 9 C18")
+reg("C29", "model_checking",
+    "TLC model-checks an implementation-shaped spec of DisjointSet (one action per atomic access) in both link variants; the real object is driven by a cooperative scheduler through TLC-generated covering walks, counterexamples, seeded random and exhaustive/bounded-DFS schedules; every history plus observed parent arrays is validated by TLC against the property-level spec UnionFindAbs",
+    "All interleavings of 2-3 threads x <=3 ops x <=4 nodes after canonical set-ups of <=2 unions are model-checked (textbook variant: 10.2 M states clean; the variant /repo had before its repair: Acyclic violated). "
+    "The real DisjointSet is bound by step-by-step replay conformance, which decides at run time which variant /repo implements, and by trace validation of every real execution against UnionFindAbs.tla: "
+    "answers linearizable, arrays acyclic after every step, final partition equals the closure.",
+    COOP_NOTE + " Bounded families, not all programs; random/DFS histories are sampled beyond the cap.", "DESIGN.md 9 C29")
